@@ -40,6 +40,9 @@ pub struct Straggler {
     pub to_ms: u64,
     pub every: u64,
     pub delay_ms: u64,
+    /// the packet itself is held back (delivered only once, `delay_ms` late) instead of being duplicated
+    #[serde(default)]
+    pub hold: bool,
 }
 #[derive(Clone, Debug, Default, Serialize, Deserialize, PartialEq)]
 pub struct Link {
@@ -290,6 +293,14 @@ impl Net {
         } else {
             0
         };
+        if let Some(sg) = ls.link.stragglers.iter().find(|g| g.hold && rel_ms >= g.from_ms && rel_ms < g.to_ms && lseq % g.every.max(1) == 0) {
+            // held back: the only copy arrives `delay_ms` late
+            self.stats.stragglers += 1;
+            let at = now + base + sg.delay_ms * MS;
+            self.inflight.entry(to).or_default().push(Pkt { at, seq: lseq * 2, from: me, to, msg: msg.clone(), forged: false });
+            self.log(now, me, to, "send-held", &w);
+            return;
+        }
         let q = self.inflight.entry(to).or_default();
         q.push(Pkt { at: now + base + j1 + extra, seq: lseq * 2, from: me, to, msg: msg.clone(), forged: false });
         if d_dup || script == Some(Fault::Dup) {
@@ -297,7 +308,7 @@ impl Net {
             q.push(Pkt { at: now + base + j2, seq: lseq * 2 + 1, from: me, to, msg: msg.clone(), forged: false });
         }
         if !d_dup {
-            if let Some(sg) = ls.link.stragglers.iter().find(|g| rel_ms >= g.from_ms && rel_ms < g.to_ms && lseq % g.every.max(1) == 0) {
+            if let Some(sg) = ls.link.stragglers.iter().find(|g| !g.hold && rel_ms >= g.from_ms && rel_ms < g.to_ms && lseq % g.every.max(1) == 0) {
                 self.stats.stragglers += 1;
                 let at = now + base + sg.delay_ms * MS;
                 self.inflight.entry(to).or_default().push(Pkt { at, seq: lseq * 2 + 1, from: me, to, msg: msg.clone(), forged: false });
